@@ -59,7 +59,7 @@ type c19Sibling struct {
 
 func init() {
 	register(&Prop{ID: "C19", Run: c19Run,
-		Rule: "overlay source documents of 1-3 layers (built with Put, some layers with Populate) and 0-2 reference overlays over a prefix-free pool of 9 leaf paths (incl. nested containers and list items); values are typed scalars or templates mentioning pool keys that come later in a fixed order (acyclic), unknown keys, defaults (also nested), repeated mentions, the ${k:def} whole-value form, unterminated tails and (rarely) nested keys; key filters all/none/prefix/not/in (half of the all-cases leave the filter to the builders' default instead of setting it); impact keys with repeats and unknown keys; HISTORY: half of the cases have 1-2 sibling families of differently configured objects from their own builder calls (placeholder resolver with another key filter and, 2 in 5, another placeholder matcher never/always/contains-$; impact analysis with that filter; dependency resolver with, 3 in 10, another matcher never/substring), built and (3 in 4) run on the source document before the objects under test are built, or between their construction and their run; the objects under test are run again after everything else (even-numbered repeated runs), and sibling placeholder resolvers with the default matcher are held to the FailedKeys clause for their own filter. Non-trivial: at least one value of the source or a reference mentions a merged key. Distinct = distinct canonical case JSON.",
+		Rule: "overlay source documents of 1-3 layers (built with Put, some layers with Populate) and 0-2 reference overlays over a prefix-free pool of 9 leaf paths (incl. nested containers and list items); values are typed scalars or templates mentioning pool keys that come later in a fixed order (acyclic), unknown keys, defaults (also nested), repeated mentions, the ${k:def} whole-value form, unterminated tails and (rarely) nested keys; key filters all/none/prefix/not/in (half of the all-cases leave the filter to the builders' default instead of setting it); impact keys with repeats and unknown keys; HISTORY: half of the cases have 1-2 sibling families of differently configured objects from their own builder calls (placeholder resolver with another key filter and, 2 in 5, another placeholder matcher never/always/contains-$; impact analysis with that filter; dependency resolver with, 3 in 10, another matcher never/substring), built and (3 in 4) run on the source document before the objects under test are built, or between their construction and their run; the objects under test are run again after everything else (even-numbered repeated runs), and sibling placeholder resolvers with the default matcher are held to the FailedKeys clause for their own filter. Kind history (c19_hist.go): ONE set of long-lived overlay documents and ONE family of long-lived analytics objects go through analyse - edit - analyse ... (1-4 rounds of 1-3 edits): every analysis (the three reports and OverlayDocument.Search per pool key) is held to the clauses on the content the documents have at that moment, to the reports of fresh objects (dependency resolver from the builder instead of DefaultDependencyResolver) on freshly built documents of the same content, and to the model; before every edit the documents are read through Search / Merged / Flatten / LookupAny; each edit changes one pool leaf (7 in 10 at depth >= 2 or inside a list) along a named route - OverlayDocument.Put / Populate / Add (the added container is kept and later edited: held), the nearest composite handed out by Lookup or to a Walk visitor (AddValue, list Set / MustSet / Append / Clear, Remove), the layer root (AddValueAt / RemoveAt) - in a source or a reference document; 1 in 6 histories pass the source document object also as first reference. Non-trivial: at least one value of the source or a reference mentions a merged key (history: two analyses with an edit between). Distinct = distinct canonical case JSON.",
 		Assumptions: []string{
 			"the overlay itself (Put/Populate/Merged/Flatten/Layers) is not modelled here: the model functions take Merged().Flatten() and each layer's Flatten() as inputs, computed by the harness from the real overlay document (C06/C02 cover the overlay and flattening)",
 			"values mention leaf keys of the merged document and unknown keys only: a mention of a container/list position makes the PlaceholderResolver panic (v.(dom.Leaf)) and is outside the property's quantifier (DESIGN section 2); mentions are acyclic (a true cycle panics by contract)",
@@ -225,6 +225,7 @@ func c19Run(c *Ctx) {
 		}
 		c.Do("reports", cs)
 	}
+	c19RunHist(c)
 }
 
 // ---------------------------------------------------------------- building and observing
@@ -502,6 +503,10 @@ func c19FlatWire(f map[string]dom.Leaf) []any {
 // ---------------------------------------------------------------- evaluation
 
 func c19Eval(c *Ctx, kind string, raw []byte) {
+	if kind == "history" {
+		c19EvalHist(c, raw)
+		return
+	}
 	if kind != "reports" {
 		return
 	}
